@@ -16,6 +16,7 @@ import (
 	"encoding/json"
 	"fmt"
 	"os"
+	"slices"
 	"sort"
 	"strings"
 	"time"
@@ -137,9 +138,12 @@ type snapshot struct {
 	clients []string
 }
 
+// every group name a token is ever asked for in this harness
+var tokenGroups = []string{"g", "h", "", "g/sub", "gx", "g/", "G", "par", "par/kid"}
+
 func tokensState() string {
 	var b strings.Builder
-	for _, g := range []string{"g", "h", ""} {
+	for _, g := range tokenGroups {
 		ts, _, _ := token.List(g)
 		var l []string
 		for _, t := range ts {
@@ -440,8 +444,16 @@ func tokenCheck(res *core.Result) core.Sub {
 	sub := core.Sub{Name: "token-delegation-and-scope", Exhaustive: true}
 	var outc core.Outcomes
 	permSets := [][]string{{}, {"message"}, {"present"}, {"present", "message"}, {"op"}, {"record"}, {"token"}, {"admin"}, {"op", "present", "message", "caption", "token", "record"}}
-	groups := []string{"g", "h", "", "g/sub"}
-	for _, unr := range []bool{false, true} {
+	groups := []string{"g", "h", "", "g/sub", "gx", "g/", "G"}
+	for _, g := range groups {
+		if !slices.Contains(tokenGroups, g) {
+			panic("tokenGroups does not cover " + g)
+		}
+	}
+	defer func() { sig.FixtureAutoSubgroups = false }()
+	for pass, unr := range []bool{false, true, false, true} {
+		// second half: the creator's group has auto-subgroups
+		sig.FixtureAutoSubgroups = pass >= 2
 		for _, role := range []string{"speaker", "oper", "rawtoken", "rawop", "talker"} {
 			holder := sig.RolePerms(role, unr)
 			for _, ps := range permSets {
@@ -457,7 +469,7 @@ func tokenCheck(res *core.Result) core.Sub {
 							m := ga("maketoken", tokenValue(ps, grp, exp, uname))()
 							_, p := runOne(w, m)
 							sub.Executions++
-							desc := fmt.Sprintf("maketoken by %s (perms %v) for group %q perms %v expiry %v username %q", role, keys(holder), grp, ps, exp, uname)
+							desc := fmt.Sprintf("maketoken by %s (perms %v, member of g, auto-subgroups %v) for group %q perms %v expiry %v username %q", role, keys(holder), sig.FixtureAutoSubgroups, grp, ps, exp, uname)
 							if p != "" {
 								res.Violate(core.Violation{Signature: "C11/panic/" + sig.PanicSite(p) + "/maketoken", What: desc + ": " + p})
 								w.Close()
